@@ -134,7 +134,7 @@ theorem tofSpec_fall (c : TCall) (h : List TCall) (hc : c.inp = false) (hl : Spe
     simp [hge, this]
 
 theorem tofSpec_cont (c : TCall) (h : List TCall) (a : Int) (hc : c.inp = false)
-    (hl : Spec.lastIn h = false) (ht : Spec.tofTiming h = some a) :
+    (_hl : Spec.lastIn h = false) (ht : Spec.tofTiming h = some a) :
     Spec.tofR (c :: h) =
         (if a + c.dt ≥ normPt c.pt then { q := false, et := normPt c.pt } else { q := true, et := a + c.dt }) ∧
       Spec.tofTiming (c :: h) = (if a + c.dt ≥ normPt c.pt then none else some (a + c.dt)) := by
@@ -204,7 +204,7 @@ theorem tofStep_spec (s : TofS) (h : List TCall) (c : TCall) (hi : TofInv s h) :
     · obtain ⟨h1, h2⟩ := tofSpec_fall c h hc' (by rw [← hp]; exact hprev)
       rw [tofStep_run s c hc' (by simp [hprev]), h1]
       simp only [hprev, if_true, Int.zero_add]
-      split <;> simp [TofInv, Spec.lastIn, h2, *]
+      split <;> simp [TofInv, Spec.lastIn, *]
     · have hprev' : s.prevIn = false := by simpa using hprev
       have hl : Spec.lastIn h = false := by rw [← hp]; exact hprev'
       by_cases htm : s.timing = true
@@ -212,7 +212,7 @@ theorem tofStep_spec (s : TofS) (h : List TCall) (c : TCall) (hi : TofInv s h) :
         obtain ⟨h1, h2⟩ := tofSpec_cont c h s.et hc' hl ht
         rw [tofStep_run s c hc' (by simp [htm]), h1]
         simp only [hprev', Bool.false_eq_true, if_false]
-        split <;> simp [TofInv, Spec.lastIn, h2, *]
+        split <;> simp [TofInv, Spec.lastIn, *]
       · have htm' : s.timing = false := by simpa using htm
         simp only [htm', Bool.false_eq_true, if_false] at ht
         obtain ⟨h1, h2⟩ := tofSpec_idle c h hc' hl ht
